@@ -14,6 +14,7 @@ import sys
 
 HERE = os.path.dirname(os.path.dirname(os.path.abspath(__file__)))
 REPO = '/repo'
+TARGET = {'dir': REPO, 'env': ''}      # where patches are applied: /repo itself (--in-repo) or a scratch worktree (default)
 
 
 def sh(cmd, **kw):
@@ -21,12 +22,12 @@ def sh(cmd, **kw):
 
 
 def clean():
-    st = sh('git -C %s status --porcelain' % REPO).stdout.strip()
+    st = sh('git -C %s status --porcelain' % TARGET['dir']).stdout.strip()
     return st == ''
 
 
 def run_check(pid, tier, seed=0):
-    r = sh('cd %s && VERIF_SEED=%d ./check %s --tier %s' % (HERE, seed, pid, tier))
+    r = sh('cd %s && %s VERIF_SEED=%d ./check %s --tier %s' % (HERE, TARGET['env'], seed, pid, tier))
     vio = [l for l in r.stdout.splitlines() if l.startswith('VIOLATION')]
     return r.returncode, vio, r.stdout[-600:]
 
@@ -38,7 +39,17 @@ def main():
     ap.add_argument('--tier', default='quick')
     ap.add_argument('--only', default=None)
     ap.add_argument('--all-checks', action='store_true', help='run all 17 checks against every mutant (which checks catch which change)')
+    ap.add_argument('--in-repo', action='store_true', help='apply the patches to /repo itself (git apply ... git checkout -- .) instead of a scratch worktree')
     args = ap.parse_args()
+    import tempfile, shutil
+    scratch = None
+    if not args.in_repo:
+        scratch = tempfile.mkdtemp(prefix='pv_selftest_')
+        wt = os.path.join(scratch, 'wt')
+        r = sh('git -C %s worktree add -q --detach %s HEAD' % (REPO, wt))
+        assert r.returncode == 0, r.stderr
+        TARGET['dir'] = wt
+        TARGET['env'] = 'PVMON_REPO_SRC=%s/src PVMON_OUT_DIR=%s/out' % (wt, scratch)
     if not (args.fixes or args.seeded):
         args.fixes = args.seeded = True
     assert clean(), '/repo working tree is not clean'
@@ -52,16 +63,16 @@ def main():
                 pid, commit, what = mm.group(1), mm.group(2), mm.group(3)
                 if args.only and args.only not in (pid, commit):
                     continue
-                r = sh('git -C %s show %s -- src | git -C %s apply -R' % (REPO, commit, REPO))
+                r = sh('git -C %s show %s -- src | git -C %s apply -R' % (REPO, commit, TARGET['dir']))
                 if r.returncode != 0:
                     results.append({'mutant': 'revert ' + commit, 'error': r.stderr[-300:]})
-                    sh('git -C %s checkout -- .' % REPO)
+                    sh('git -C %s checkout -- .' % TARGET['dir'])
                     continue
                 caught = {}
                 for p in (allids if args.all_checks else [pid]):
                     rc, vio, tail = run_check(p, args.tier)
                     caught[p] = {'exit': rc, 'violations': [v[:200] for v in vio[:3]]}
-                sh('git -C %s checkout -- .' % REPO)
+                sh('git -C %s checkout -- .' % TARGET['dir'])
                 ok = caught[pid]['exit'] == 1
                 results.append({'mutant': 'revert %s (%s)' % (commit, what[:80]), 'expected': pid, 'caught': ok,
                                 'firing_checks': [p for p, c in caught.items() if c['exit'] == 1], 'detail': caught[pid]})
@@ -72,26 +83,29 @@ def main():
                 name = os.path.basename(d)
                 if args.only and args.only not in (name, meta.get('property')):
                     continue
-                r = sh('git -C %s apply %s' % (REPO, os.path.join(d, 'patch.diff')))
+                r = sh('git -C %s apply %s' % (TARGET['dir'], os.path.join(d, 'patch.diff')))
                 if r.returncode != 0:
                     results.append({'mutant': name, 'error': r.stderr[-300:]})
-                    sh('git -C %s checkout -- .' % REPO)
+                    sh('git -C %s checkout -- .' % TARGET['dir'])
                     print('ERROR applying', name, r.stderr[-200:])
                     continue
                 caught = {}
                 for p in (allids if args.all_checks else meta.get('expected_checks', [meta['property']])):
                     rc, vio, tail = run_check(p, args.tier)
                     caught[p] = {'exit': rc, 'violations': [v[:200] for v in vio[:3]]}
-                sh('git -C %s checkout -- .' % REPO)
+                sh('git -C %s checkout -- .' % TARGET['dir'])
                 firing = [p for p, c in caught.items() if c['exit'] == 1]
                 ok = meta['property'] in firing
                 results.append({'mutant': name, 'expected': meta['property'], 'caught': ok, 'firing_checks': firing, 'detail': caught.get(meta['property'])})
                 print(('CAUGHT ' if ok else 'MISSED ') + '%s expected %s firing %s' % (name, meta['property'], firing), flush=True)
     finally:
-        sh('git -C %s checkout -- .' % REPO)
+        sh('git -C %s checkout -- .' % TARGET['dir'])
+        if scratch:
+            sh('git -C %s worktree remove --force %s' % (REPO, TARGET['dir']))
+            shutil.rmtree(scratch, ignore_errors=True)
     out = os.path.join(HERE, 'selftest_results.json')
     prev = []
-    if os.path.exists(out) and args.only:
+    if os.path.exists(out):
         prev = [r for r in json.load(open(out)) if r.get('mutant') not in [x.get('mutant') for x in results]]
     json.dump(prev + results, open(out, 'w'), indent=1)
     missed = [r for r in results if not r.get('caught')]
